@@ -784,6 +784,115 @@ def _len_minus_count(F, fn, iv, a, b):
     return None
 
 
+_SEQ_IDENT = re.compile(r'ops::Deref::deref$|ops::DerefMut::deref_mut$|::as_slice$|::as_mut_slice$|convert::AsRef::as_ref$|borrow::Borrow::borrow$|::as_str$|::as_bytes$')
+
+
+def _seq_base(iv, o, depth=10):
+    """the local that owns the sequence an operand refers to (through borrows, re-borrows, copies, deref/as_slice)"""
+    l = op_local(o)
+    seen = set()
+    while l is not None and l not in seen and depth > 0:
+        seen.add(l)
+        depth -= 1
+        d = _single_def(iv, l)
+        if d is None:
+            return l
+        if d[0] == 'call':
+            if _SEQ_IDENT.search(strip_args(cdef(d[2]))) and d[2]['args'] and op_local(d[2]['args'][0]) is not None:
+                l = op_local(d[2]['args'][0])
+                continue
+            return l
+        rv = d[2]['rv']
+        if rv['r'] == 'ref' and all(p == '*' for p in rv['pl']['p']):
+            l = rv['pl']['l']
+            continue
+        if rv['r'] == 'use' and rv['op']['k'] in ('copy', 'move') and all(p == '*' for p in rv['op']['pl']['p']):
+            l = rv['op']['pl']['l']
+            continue
+        return l
+    return l
+
+
+def _canon_len_source(iv, o, depth=6):
+    """canonical description of the sequence whose length an operand is: len(X) -> canon(X)"""
+    l = op_local(o)
+    hops = 0
+    while l is not None and hops < depth:
+        hops += 1
+        d = _single_def(iv, l)
+        if d is None:
+            return None
+        if d[0] == 'call':
+            if re.search(r'::len$', strip_args(cdef(d[2]))) and d[2]['args']:
+                b_ = _seq_base(iv, d[2]['args'][0])
+                if b_ is None or b_ in iv.defs.mut_borrowed:
+                    return None        # the sequence may change length between the two uses
+                return ('seq', b_)
+            return None
+        rv = d[2]['rv']
+        if rv['r'] == 'use' and rv['op']['k'] in ('copy', 'move') and not rv['op']['pl']['p']:
+            l = op_local(rv['op'])
+            continue
+        if rv['r'] == 'bin' and rv['bop'] in ('SubWithOverflow', 'Sub') :
+            return None
+        return None
+    return None
+
+
+def _minus_min_of_self(fn, iv, a, b):
+    """D6: x - min(x, y) cannot underflow (min(x, y) <= x)"""
+    l = op_local(b)
+    hops = 0
+    while l is not None and hops < 4:
+        hops += 1
+        d = _single_def(iv, l)
+        if d is None:
+            return None
+        if d[0] == 'call':
+            if re.search(r'cmp::min$|Ord::min$', strip_args(cdef(d[2]))) and len(d[2]['args']) == 2:
+                ca = iv.canon(a)
+                sa = _canon_len_source(iv, a)
+                if (ca is not None and any(iv.canon(x) == ca for x in d[2]['args'])) or \
+                        (sa is not None and any(_canon_len_source(iv, x) == sa for x in d[2]['args'])):
+                    return 'D6: x - min(x, y): the subtrahend is the minimum of the minuend and another value, so it cannot exceed it'
+            return None
+        rv = d[2]['rv']
+        if rv['r'] == 'use' and rv['op']['k'] in ('copy', 'move') and not rv['op']['pl']['p']:
+            l = op_local(rv['op'])
+            continue
+        return None
+    return None
+
+
+def _split_at_len_minus(fn, iv, base, mid):
+    """D7: s.split_at(s.len() - k) with a checked subtraction: mid <= len(s)"""
+    l = op_local(mid)
+    hops = 0
+    while l is not None and hops < 5:
+        hops += 1
+        d = _single_def(iv, l)
+        if d is None or d[0] != 'assign':
+            return None
+        rv = d[2]['rv']
+        if rv['r'] == 'use' and rv['op']['k'] in ('copy', 'move'):
+            pl = rv['op']['pl']
+            if pl['p'] and isinstance(pl['p'][0], dict) and pl['p'][0].get('f') == 0:
+                l = pl['l']          # the value field of a checked (a - b, overflow) pair
+                continue
+            if not pl['p']:
+                l = pl['l']
+                continue
+            return None
+        if rv['r'] == 'bin' and rv['bop'] in ('SubWithOverflow', 'Sub'):
+            src = _canon_len_source(iv, rv['a'])
+            cb = ('seq', _seq_base(iv, base))
+            if src is not None and cb[1] is not None and src == cb:
+                return 'D7: split_at(len(s) - k) on the same sequence: the (overflow-checked) difference is at most len(s)'
+            return None
+        return None
+    return None
+
+
 def auto_discharge(F, site, iv=None):
     """returns reason string if the site provably cannot fire, else None"""
     t = site.term
@@ -802,6 +911,9 @@ def auto_discharge(F, site, iv=None):
                 return 'D4: the closure argument is an index returned by str::find (< len <= isize::MAX): adding 1 cannot overflow'
     if site.kind == 'assert:Overflow:Sub':
         r = _len_minus_count(F, fn, iv, t['ops'][0], t['ops'][1])
+        if r:
+            return r
+        r = _minus_min_of_self(fn, iv, t['ops'][0], t['ops'][1])
         if r:
             return r
     if site.kind.startswith('assert:Overflow:'):
@@ -846,6 +958,9 @@ def auto_discharge(F, site, iv=None):
         return None
     if site.kind == 'call:split_at' and len(t['args']) >= 2:
         r = _str_find_slice(F, fn, iv, site, t['args'][0], t['args'][1], is_range=False)
+        if r:
+            return r
+        r = _split_at_len_minus(fn, iv, t['args'][0], t['args'][1])
         if r:
             return r
         return None
@@ -953,13 +1068,23 @@ def dominating_conditions(fn, bid, prov=None):
     return out
 
 
+def relax_desc(k):
+    """provenance text modulo value-preserving wrappers: Try::branch(x) -> x, payload / tuple projections of temporaries"""
+    prev = None
+    while prev != k:
+        prev = k
+        k = re.sub(r'Try::branch\(([^()]*)\)', r'\1', k)
+    k = re.sub(r'(\.0)+', '.0', k)
+    return k
+
+
 def check_requires(fn, site, requires, prov=None):
     """requires: list of {'cond': regex on the discriminant provenance, 'edge': '0'|'1'|'otherwise'|'nonzero'}"""
     conds = dominating_conditions(fn, site.bid, prov)
     missing = []
     def holds(r):
         for desc, edge in conds:
-            if re.search(r['cond'], desc):
+            if re.search(r['cond'], desc) or re.search(r['cond'], relax_desc(desc)):
                 want = r.get('edge')
                 if want is None or want == edge or (want == 'nonzero' and edge != '0') or (want == '1' and edge == 'otherwise'):
                     return True
